@@ -1,4 +1,5 @@
 import NiflyVerif.Graph.HeaderLemmas
+import NiflyVerif.Graph.HeaderTrack
 /-!
 # C06 — block-graph edits keep every reference on its target and the header consistent
 
@@ -355,6 +356,136 @@ theorem prune_fuel (f : Nat) (h : Hdr) (root c : Nat) (r : Hdr × Nat) (hf : h.b
           subst hdi
           simp [List.length_eraseIdx_of_lt hil]
         exact ih g _ _ (by omega) (by split <;> omega) (inv_delete h g i hinv hdi) hd
+
+/-! ## referent tracking across composite operations
+
+Every composite operation of the header is a sequence of single deletions; a single deletion removes one logical
+block and clears exactly the references that designated it (`view_delete`), which is `cut [uid]`, and cuts compose
+(`cut_cut`).  Hence after `DeleteBlockByType` or `DeleteUnreferencedBlocks` the model is the old one with a set `D` of
+logical blocks removed, every reference to a member of `D` empty, and **every other reference designating the same
+logical block as before** — for every header satisfying the invariant and every argument. -/
+
+theorem delete_some_lt (h g : Hdr) (i : Nat) (hd : h.delete i = some g) : i < h.blocks.length := by
+  unfold Hdr.delete at hd
+  by_cases hc : i ≥ h.blocks.length ∨ i ≥ h.tidx.length
+  · simp [hc] at hd
+  · omega
+
+/-- a single deletion as a cut -/
+theorem view_delete_cut (h h' : Hdr) (i : Nat) (hinv : Inv h) (hi : i < h.blocks.length) (hd : h.delete i = some h') :
+    view h' = cut [h.blocks[i].uid] (view h) := by
+  rw [view_delete h h' i hinv hi hd]
+  have hlen : i < (view h).length := by simpa [view] using hi
+  have hk : (view h)[i].1 = h.blocks[i].uid := by simp [view]
+  have hnd : ((view h).map (·.1)).Nodup := by rw [view_uids]; exact hinv.uids_nodup
+  rw [eraseIdx_eq_filter_key (·.1) (view h) i hlen hnd, hk]
+  unfold cut
+  have hf : ((view h).filter fun x => x.1 != h.blocks[i].uid) = (view h).filter fun x => ![h.blocks[i].uid].contains x.1 := by
+    apply List.filter_congr
+    intro x _
+    by_cases hx : x.1 = h.blocks[i].uid <;> simp [hx]
+  rw [hf]
+  apply List.map_congr_left
+  intro x _
+  obtain ⟨u, t, rs⟩ := x
+  simp only [Prod.mk.injEq, true_and]
+  apply List.map_congr_left
+  intro r _
+  cases r with
+  | none => simp [clear]
+  | some v => by_cases hv : v = h.blocks[i].uid <;> simp [clear, hv]
+
+/-- **Referent tracking for any guarded sequence of deletions** (the loop of `DeleteBlockByType`). -/
+theorem view_deleteFold (f : Hdr → Nat → Bool) (l : List Nat) (h h' : Hdr) (hinv : Inv h)
+    (hd : l.foldlM (fun (g : Hdr) i => if f g i then g.delete i else some g) h = some h') :
+    ∃ D : List Nat, view h' = cut D (view h) ∧ D.length ≤ l.length := by
+  induction l generalizing h with
+  | nil => simp at hd; subst hd; exact ⟨[], (cut_nil _).symm, by simp⟩
+  | cons i is ih =>
+    simp only [List.foldlM_cons, Option.bind_eq_bind] at hd
+    split at hd
+    · cases hdi : h.delete i with
+      | none => simp [hdi] at hd
+      | some g =>
+        rw [hdi] at hd
+        obtain ⟨D, hD, hl⟩ := ih g (inv_delete h g i hinv hdi) hd
+        have hi := delete_some_lt h g i hdi
+        refine ⟨[h.blocks[i].uid] ++ D, ?_, by simp; omega⟩
+        rw [hD, view_delete_cut h g i hinv hi hdi, cut_cut]
+    · obtain ⟨D, hD, hl⟩ := ih h hinv hd
+      exact ⟨D, hD, by simp; omega⟩
+
+/-- **`DeleteBlockByType` tracks referents.** -/
+theorem view_deleteByType (h h' : Hdr) (t : Nat) (o : Bool) (hinv : Inv h) (hd : h.deleteByType t o = some h') :
+    ∃ D : List Nat, view h' = cut D (view h) := by
+  unfold Hdr.deleteByType at hd
+  simp only at hd
+  split at hd
+  · simp at hd; subst hd; exact ⟨[], (cut_nil _).symm⟩
+  · obtain ⟨D, hD, _⟩ := view_deleteFold (fun g i => !o || !g.isReferenced i) _ h h' hinv hd
+    exact ⟨D, hD⟩
+
+/-- **`DeleteUnreferencedBlocks` tracks referents, counts what it deletes and never deletes the root**: the result is
+the old model with the logical blocks `D` cut out, the returned count is `|D|`, and the block the (shifted) root index
+designates afterwards is the logical block the root index designated before. -/
+theorem view_prune (f : Nat) (h : Hdr) (root c : Nat) (r : Hdr × Nat) (hinv : Inv h) (hroot : root < h.blocks.length)
+    (hd : prune f h root c = some r) :
+    ∃ (D : List Nat) (root' : Nat), view r.1 = cut D (view h) ∧ r.2 = c + D.length ∧
+      r.1.blocks[root']?.map (·.uid) = some h.blocks[root].uid ∧ h.blocks[root].uid ∉ D := by
+  induction f generalizing h root c with
+  | zero =>
+    simp [prune] at hd; subst hd
+    exact ⟨[], root, (cut_nil _).symm, by simp, by simp [List.getElem?_eq_getElem hroot], by simp⟩
+  | succ f ih =>
+    simp only [prune] at hd
+    split at hd
+    · simp at hd; subst hd
+      exact ⟨[], root, (cut_nil _).symm, by simp, by simp [List.getElem?_eq_getElem hroot], by simp⟩
+    · rename_i i hfind
+      obtain ⟨hne, _, hil⟩ := prune_deletes_unreferenced h root i hfind
+      cases hdi : h.delete i with
+      | none => simp [hdi] at hd
+      | some g =>
+        simp only [hdi] at hd
+        have hginv := inv_delete h g i hinv hdi
+        -- the root index after the shift designates the same logical block
+        have hgb : g.blocks = (h.blocks.eraseIdx i).map (adjBlk i) := by
+          have hlen := hinv.len_tidx
+          unfold Hdr.delete at hdi
+          have hc : ¬ (i ≥ h.blocks.length ∨ i ≥ h.tidx.length) := by omega
+          simp only [hc, if_false, Option.some.injEq] at hdi
+          subst hdi; rfl
+        have hrne : root ≠ i := fun e => hne e.symm
+        have hsh := getElem?_eraseIdx_shift h.blocks i root hrne
+        have hroot'u : g.blocks[if root > i then root - 1 else root]?.map (·.uid) = some h.blocks[root].uid := by
+          rw [hgb, List.getElem?_map, hsh, List.getElem?_eq_getElem hroot]
+          simp [adjBlk]
+        have hroot' : (if root > i then root - 1 else root) < g.blocks.length := by
+          cases hx : g.blocks[if root > i then root - 1 else root]? with
+          | none => rw [hx] at hroot'u; simp at hroot'u
+          | some b => exact (List.getElem?_eq_some_iff.1 hx).1
+        obtain ⟨D, root'', hD, hc, hr, hnm⟩ := ih g _ (c + 1) hginv hroot' hd
+        have hgu : g.blocks[if root > i then root - 1 else root].uid = h.blocks[root].uid := by
+          have := hroot'u
+          rw [List.getElem?_eq_getElem hroot'] at this
+          simpa using this
+        refine ⟨[h.blocks[i].uid] ++ D, root'', ?_, ?_, ?_, ?_⟩
+        · rw [hD, view_delete_cut h g i hinv hil hdi, cut_cut]
+        · rw [hc]; simp; omega
+        · rw [hr, hgu]
+        · intro hm
+          rcases List.mem_append.1 hm with h1 | h1
+          · have heq : h.blocks[root].uid = h.blocks[i].uid := by simpa using h1
+            have h1' : (h.blocks.map (·.uid))[root]'(by simpa using hroot) = (h.blocks.map (·.uid))[i]'(by simpa using hil) := by
+              simpa using heq
+            exact hrne ((List.getElem_inj hinv.uids_nodup).mp h1')
+          · exact hnm (hgu ▸ h1)
+
+/-- the statement is not vacuous: a root, a loose block that references a shared child, the shared child -/
+def exHdr : Hdr := { blocks := [⟨10, 0, [some 2]⟩, ⟨11, 1, [some 2]⟩, ⟨12, 0, []⟩], types := [0, 1], tidx := [0, 1, 0],
+                     sizes := [0, 0, 0] }
+example : (prune 3 exHdr 0 0).map (fun r => (view r.1, r.2)) = some (cut [11] (view exHdr), 1) ∧
+      cut [11] (view exHdr) = [(10, 0, [some 12]), (12, 0, [])] := ⟨by rfl, by rfl⟩
 
 /-! ## any operation sequence -/
 
